@@ -13,13 +13,15 @@ EXPLANATION = (
     "into the window on the no-checksum branch is folded (CRC) and summed (Adler) on the checksum branch, and the non-window "
     "prefix is folded too; inflate() passes the call's whole output and update_checksum = wrap & 4. WHO: wrap's bit 2 is cleared "
     "only by validate(false), sync and reset_with_config. That the checksum functions compute the right value is C09's; the "
-    "arithmetic of out_written is not decided.")
+    "arithmetic of out_written is not decided. "
+    "PAIR/handover-after-suspension (arms Check and Length): the trailer arms name Done/Length only after their last input request, so a trailer split across calls is still compared.")
 
 CLAIM = dict(
     text="Static: mode-graph reachability (StreamEnd only through Check then Length), cut-set proofs that the trailer "
          "comparisons cannot be bypassed while checking is enabled, and a sibling rule that no output byte range escapes the "
          "running check in the fused copy+checksum routine. Necessary conditions of 'stream end only after verified trailer' "
-         "for all inputs and schedules.",
+         "for all inputs and schedules. "
+         "Also: the trailer arms hand over to the next mode only after their last input request.",
     note="Trusted: rustc MIR; arm regions by dominance of the mode switch targets; host target.",
     technique="mode-graph constraints + cut-set analysis + sibling (copied vs folded slices) comparison over rustc MIR",
 )
